@@ -26,10 +26,14 @@ ASSUMPTIONS = [
     'coefficients and vector entries are dyadic Gaussian rationals (float arithmetic exact)',
 ]
 OPEN_STATEMENTS = [
-    'qubit_sparse_sound / jw_sparse_sound (the assembled scipy matrix equals the Spec matrix for every n): '
-    'Corr + oracle only (all entries compared exactly on <= 5 qubits); proved: the Kronecker entry rule, the '
-    'big-endian index lemmas, count_qubits, operator-group partition, order independence of the parallel reduction',
-    'matvec_sound / diagonal_sound (the halving recursion equals matrix-vector multiplication): Corr + oracle only',
+    'qubit_sparse_sound is proved per term (qubit_term_matrix_sound: Kronecker chain of a Pauli string = its Spec '
+    'matrix, every n); the coordinate assembly over several terms (values in CSC order zipped with the swapped '
+    'row-major nonzero() indices) and the product of ladder matrices over a fermionic term (jw_sparse_sound; each '
+    'ladder matrix is proved: jw_ladder_sound; the final duplicate summation is proved: coo_assembly_sound) are Corr + oracle only '
+    '(all entries compared exactly on <= 5 qubits)',
+    'matvec_sound (matvec_term_sound + matvec_linear), diagonal_term_sound and parallel_matvec_sound are proved at the '
+    'level stated in Properties/C06.lean (per term resp. per entry); the summation of the diagonal over the terms '
+    '(linearDiagonal) is Corr + oracle only',
     'truncated boson / quadrature matrices (sqrt amplitudes): numeric correspondence only',
     'expectation / variance / eigenspectrum: contract-only glue over scipy, numeric correspondence',
     'OS-level behaviour of multiprocessing.Pool (fork, pickling, worker death) is not expressible',
@@ -711,4 +715,27 @@ def probe_known(ctx, k):
 
 
 def replay(ctx, payload):
+    """Re-evaluate a recorded Spec violation by regenerating the streams of the recorded (seed, tier):
+    False = the recorded input still fails, True = it was re-evaluated and passes now,
+    None = the input could not be regenerated (different sampling regime)."""
+    import hashlib
+    import json
+    from common import show
+    v = payload.get('violation')
+    if not isinstance(v, dict) or 'input' not in v:
+        return None
+    ctx.seed = payload.get('seed', ctx.seed)
+    ctx.tier = payload.get('tier', ctx.tier)
+    want = json.dumps(v['input'], default=str)
+    key = hashlib.sha1(show(v['input'], 10 ** 7).encode()).hexdigest()[:16]
+    seen = False
+    for drift in (ctx.drift, not ctx.drift):
+        ctx.drift = drift
+        for s in run(ctx):
+            for w in s.violations:
+                if json.dumps(json.loads(json.dumps(w['input'], default=str))) == want:
+                    return False
+            seen = seen or key in s.distinct
+        if seen:
+            return True
     return None
